@@ -73,6 +73,9 @@ def helpers(ctx, N, d):
 
 def replay_case(ctx, case):
     ctx.pairs = 0
+    if case.get('cold_start'):
+        import importlib
+        importlib.reload(ei)
     if case.get('second_request'):
         N, d = case['N'], case['d']
         J = ei.generate_multi_indices(N, d)
@@ -110,4 +113,19 @@ def run(ctx):
         f = check_nd(ctx, N, d)
         if f:
             ctx.report(dict(case, second_request=True), 'failure', 'after-mutation-' + f)
+    # cold start: module-level state as in a fresh process (reload), then (N, d) requested first thing, in descending and
+    # shuffled order of d -- a memo table must not depend on which degrees were asked for before
+    import importlib
+    tab = [(N, d) for (N, d) in table(ctx.tier) if d >= 2]
+    order = sorted(tab, key=lambda t: (-t[1], t[0]))
+    shuffled = list(tab)
+    ctx.rng.shuffle(shuffled)
+    for (N, d) in order[:len(order) if ctx.tier != 'quick' else 12] + shuffled[:len(shuffled) if ctx.tier != 'quick' else 12]:
+        importlib.reload(ei)
+        ctx.evaluations += 1
+        ctx.count('cold-start')
+        f = check_nd(ctx, N, d)
+        if f:
+            ctx.report({'N': N, 'd': d, 'cold_start': True}, 'failure', 'cold-start-' + f)
+    importlib.reload(ei)
     ctx.dist['gamma_pairs_compared'] = ctx.pairs
